@@ -1,7 +1,7 @@
 """C17 - results depend only on the model, not on process history or diagnostics.
 
-spec:   spec/Process.tla (actions NewModel, DeclareHead, DeclareRest, Main, RegisterLogs, Cleanup, Reparse, Solve,
-        SolveAgain, SetTrace; invariants C17_HistoryIndependent, C17_ReparseClean, action property
+spec:   spec/Process.tla (actions NewModel, DeclareHead, DeclareRest, Main, RegisterLogs, Cleanup, AddFunction,
+        Reparse, Solve, SolveAgain, SetTrace; invariants C17_HistoryIndependent, C17_ReparseClean, action property
         C17_ResolveIdempotent)
 TLC:    exhaustive check of the bounded instances (2 models x 2 blocks, 0-2 stand-alone solvers);
         every maximal history that computes at least one result is emitted
@@ -34,6 +34,12 @@ before main(), an initial condition booked through Sector.AddInitialCondition (s
 Country.LookupSector(int)), an exogenous series and an initial condition given by sector code, and an
 income exclusion (matched by id).  Whatever identifies a sector by its id is thereby exposed to id
 collisions caused by other objects created while the model is under construction.
+Blocks: A (no user function) and B (calls the user function f) share the variable names x, LAG_x, g and define
+x and g differently, so a right-hand side or value of the previous block that survives ParseString changes
+the series.  AddFunction(s, f1 | f2) registers the SAME name 'f' with different bodies on different solvers:
+the reference of block B is taken per body (B with f1, B with f2 alone in a fresh process) and, for a solver
+that never registered f, B alone raises NameError - in a history it must raise as well (C17_HistoryIndependent:
+the outcome of a solver depends on its own function table only).
 Conformance clauses (DRIFT only): id counter and logger registry after every action, cached
 VariableList, number of ('k', ...) entries SetInitialConditions has appended to Parser.Exogenous
 (one per solve: the list grows, the series do not change), text of Model.FinalEquations.
@@ -66,14 +72,14 @@ g = [1.0, 2.0, 3.0, 4.0, 5.0, 6.0]
 MaxTime = 4
 """, 'horizon': 4, 'func': False, 'declared': ['LAG_x', 'a', 'g', 'x', 'y']},
     'B': {'text': """
-u = f(w) + 0.25*LAG_u
-LAG_u = u(k-1)
-w = 0.5*u + h
-v = u - w
+x = f(w) + 0.25*LAG_x
+LAG_x = x(k-1)
+w = 0.5*x + g
+v = x - w
 exogenous
-h = [2.0]*8
+g = [2.0]*8
 MaxTime = 4
-""", 'horizon': 4, 'func': True, 'declared': ['LAG_u', 'h', 'u', 'v', 'w']},
+""", 'horizon': 4, 'func': True, 'declared': ['LAG_x', 'g', 'v', 'w', 'x']},
 }
 MODEL_HORIZON = {'SIM': 2, 'TWO': 6}
 REFERENCE_HIST = {
@@ -82,7 +88,11 @@ REFERENCE_HIST = {
     'TWO': [{'a': 'NewModel', 'x': 'TWO', 'b': '', 'k': 0}, {'a': 'DeclareHead', 'x': 'TWO', 'b': '', 'k': 0},
             {'a': 'DeclareRest', 'x': 'TWO', 'b': '', 'k': 0}, {'a': 'Main', 'x': 'TWO', 'b': '', 'k': 0}],
     'A': [{'a': 'Reparse', 'x': 's1', 'b': 'A', 'k': 0}, {'a': 'Solve', 'x': 's1', 'b': 'A', 'k': 0}],
-    'B': [{'a': 'Reparse', 'x': 's1', 'b': 'B', 'k': 0}, {'a': 'Solve', 'x': 's1', 'b': 'B', 'k': 0}],
+    'B:none': [{'a': 'Reparse', 'x': 's1', 'b': 'B', 'k': 0}, {'a': 'Solve', 'x': 's1', 'b': 'B', 'k': 0}],
+    'B:f1': [{'a': 'AddFunction', 'x': 's1', 'b': 'f1', 'k': 0}, {'a': 'Reparse', 'x': 's1', 'b': 'B', 'k': 0},
+             {'a': 'Solve', 'x': 's1', 'b': 'B', 'k': 0}],
+    'B:f2': [{'a': 'AddFunction', 'x': 's1', 'b': 'f2', 'k': 0}, {'a': 'Reparse', 'x': 's1', 'b': 'B', 'k': 0},
+             {'a': 'Solve', 'x': 's1', 'b': 'B', 'k': 0}],
 }
 
 
@@ -90,8 +100,20 @@ REFERENCE_HIST = {
 # child side: executes histories on the real objects
 # --------------------------------------------------------------------------------------
 
-def user_f(z):
+def user_f1(z):
     return 0.5 * z + 1.0
+
+
+def user_f2(z):
+    return 0.25 * z + 2.0
+
+
+USER_FUNCTIONS = {'f1': user_f1, 'f2': user_f2}
+
+
+def ref_key(block, body):
+    """name of the fresh-process reference of a block solved by a solver that registered `body` itself"""
+    return block + ':' + body if BLOCKS[block]['func'] else block
 
 
 def snapshot(holder):
@@ -115,7 +137,7 @@ def id_counter():
 def blank(ev, x='', b='', k=0):
     return {'ev': ev, 'x': x, 'b': b, 'k': k, 'ok': True, 'exc': '', 'same_keys': True, 'same_vals': True,
             'full': True, 'same_prev': True, 'same_eqs': True, 'varlist': [], 'nk': 0, 'id1': 0,
-            'logs': {}, 'diff': '', 'traced': False, 'hasfunc': False, 'remnants': []}
+            'logs': {}, 'diff': '', 'traced': False, 'hasfunc': False, 'remnants': [], 'exp_ok': True}
 
 
 def compare(ev, snap, ref, horizon):
@@ -216,7 +238,7 @@ def execute(hist, refs, base):
 
     def solver_of(s):
         if s not in solvers:
-            solvers[s] = {'solver': EquationSolver(), 'block': '', 'prev': None}
+            solvers[s] = {'solver': EquationSolver(), 'block': '', 'prev': None, 'body': 'none'}
         return solvers[s]
 
     for act in hist:
@@ -260,10 +282,13 @@ def execute(hist, refs, base):
                 Logger.register_standard_logs(base)
             elif a == 'Cleanup':
                 Logger.cleanup()
+            elif a == 'AddFunction':
+                st = solver_of(x)
+                st['body'] = b
+                st['prev'] = None           # the solver's own function table changed
+                st['solver'].AddFunction('f', USER_FUNCTIONS[b])
             elif a == 'Reparse':
                 st = solver_of(x)
-                if BLOCKS[b]['func']:
-                    st['solver'].AddFunction('f', user_f)
                 st['block'] = b
                 st['prev'] = None
                 st['solver'].ParseString(BLOCKS[b]['text'])
@@ -278,10 +303,13 @@ def execute(hist, refs, base):
                     sol.SolveEquation()
                 finally:
                     snap = snapshot(sol.TimeSeries)
-                    ref = None if refs is None else refs[st['block']]['series']
+                    rk = ref_key(st['block'], st['body'])
+                    ref = None if refs is None else refs[rk]['series']
                     compare(ev, snap, ref, blk['horizon'])
                     if refs is None:
                         ev['snap'] = snap
+                    else:
+                        ev['exp_ok'] = refs[rk]['ok']
                     if a == 'SolveAgain' and st['prev'] is not None:
                         ev['same_prev'] = (snap == st['prev'])
                     st['prev'] = snap
@@ -383,13 +411,20 @@ def references(wd):
         evs = got['ref:' + n]
         last = evs[-1]
         bad = [e for e in evs if not e['ok']]
+        if n.endswith(':none'):
+            # a block that calls f, solved by a solver without f: alone it must fail with NameError
+            if len(bad) != 1 or bad[0] is not last or not last['exc'].startswith('NameError') or 'snap' not in last:
+                raise core.MachineryError('reference run of %s: expected NameError in the solve, got %s' % (
+                    n, json.dumps(bad[:1] or last)[:400]))
+            refs[n] = {'series': last['snap'], 'eqs': '', 'ok': False}
+            continue
         if bad or not last['full'] or 'snap' not in last:
             raise core.MachineryError('reference run of %s alone in a fresh process failed: %s' % (
                 n, json.dumps(bad[:1] or last)[:400]))
-        refs[n] = {'series': last['snap'], 'eqs': last.get('eqs', '')}
+        refs[n] = {'series': last['snap'], 'eqs': last.get('eqs', ''), 'ok': True}
         keys = set(last['snap'])
-        if n in BLOCKS:
-            dec = set(BLOCKS[n]['declared'])
+        if n.split(':')[0] in BLOCKS:
+            dec = set(BLOCKS[n.split(':')[0]]['declared'])
             if not (dec <= keys and keys - dec <= {'k', 't'}):
                 raise core.MachineryError('reference key set of block %s is not its declared variables: %s' % (
                     n, sorted(keys)))
@@ -405,6 +440,10 @@ def references(wd):
 
 def first_bad(events):
     for e in events:
+        if not e['exp_ok']:             # alone in a fresh process this solve raises: it must raise here too
+            if e['ok']:
+                return e
+            continue
         if not (e['ok'] and e['same_keys'] and e['same_vals'] and e['full'] and e['same_prev']):
             return e
     return None
@@ -421,6 +460,8 @@ def signature(clause, events):
         if e['remnants']:
             return 'remnant-series-after-reparse'
         return 'reparse-key-set-differs:' + e['b']
+    if e['ok'] and not e['exp_ok']:
+        return 'solves-with-a-function-it-never-registered'
     if not e['ok']:
         cls = e['exc'].split(':')[0]
         if e['ev'] in ('Solve', 'SolveAgain') and e['traced'] and e['hasfunc'] and cls == 'TypeError':
@@ -436,7 +477,8 @@ def signature(clause, events):
 
 def nontrivial(beh):
     """some result is computed after at least one action that is not part of computing it alone
-    (alone = NewModel, DeclareHead, DeclareRest, Main of that model / the first Reparse and the first Solve of that solver)"""
+    (alone = NewModel, DeclareHead, DeclareRest, Main of that model / one AddFunction, the first Reparse and the
+    first Solve of that solver)"""
     h = beh['hist']
     for i, a in enumerate(h):
         if a['a'] not in PRODUCE:
@@ -444,7 +486,7 @@ def nontrivial(beh):
         mine = [p for p in h[:i] if p['x'] == a['x']]
         if a['a'] == 'Main':
             own = [p for p in mine if p['a'] in ('NewModel', 'DeclareHead', 'DeclareRest')]
-        elif a['a'] == 'Solve' and [p['a'] for p in mine] == ['Reparse']:
+        elif a['a'] == 'Solve' and sorted(p['a'] for p in mine) in (['Reparse'], ['AddFunction', 'Reparse']):
             own = mine
         else:
             own = []
